@@ -4,6 +4,7 @@ from .. import opcodes as O
 from .. import terms as T
 from .. import vmloops as V
 from .. import asmchecks as AC
+from .. import jitdriver as JD
 
 CHOICE_BASES = T.CHOICE_BASES
 
@@ -145,3 +146,7 @@ def run(ctx):
 
     r = ctx.rule("R5", "output / choice buffers are sized to the tape's counts before every evaluation", 19)
     ctx.guarded(r, C10.r1_buffers)
+    r = ctx.rule("R4", "every advertised size / variable map / output count is copied from or delegated to its namesake", 29)
+    ctx.guarded(r, JD.r_constructors)
+    r = ctx.rule("R4b", "bulk results expose exactly n samples per output (driver arithmetic)", 11)
+    ctx.guarded(r, JD.r_bulk_driver)
